@@ -8,8 +8,15 @@
      - deletion of the auxiliary coordinate,
      - numpy .astype(int): truncation towards zero.
    The factorisations are an input (validated by LatticeRat.check_factorisation).
-   The model is REFUTED as a basis computation: see truncation_refuted and
-   trivially_empty_refuted at the end. *)
+
+   TWO rules are modelled:
+   - [old_*]: the code before /repo commits a4c7460 and 47f10be (rational nullspace truncated to
+     integers; shortcut blind to a base equal to 1).  REFUTED: truncation_old_rule_refuted,
+     trivially_empty_old_rule_refuted (statements about the old rule only).
+   - [model_*]: the repaired code (integer kernel by unimodular row operations on [M^T | I];
+     shortcut refused when a base equals 1).  This is the model compared with the real
+     implementation on every run.  Its outputs are validated PER INSTANCE by the verified
+     validators of Lattice*.v; a proof that it passes them for all inputs is not done. *)
 From Coq Require Import List Bool Arith Lia ZArith QArith Qcanon.
 From Polar Require Import Qcx CRing ExpPoly Lattice LatticeRel LatticeRat.
 Import ListNotations.
@@ -66,7 +73,7 @@ Definition model_matrix (k m : nat) (facts : list (bool * list Z)) : bool * list
   then (true, map (fun r => r ++ [0]) prime_rows ++ [map (fun f => qz (tz (fst f))) facts ++ [qz 2]])
   else (false, prime_rows).
 
-Definition model_basis_rational (m : nat) (facts : list (bool * list Z)) : list (list Z) :=
+Definition old_model_basis_rational (m : nat) (facts : list (bool * list Z)) : list (list Z) :=
   let k := length facts in
   let '(has_neg, M) := model_matrix k m facts in
   let n := if has_neg then S k else k in
@@ -80,16 +87,86 @@ Fixpoint pairwise_coprime (l : list Z) : bool :=
   | [] => true
   | x :: l' => forallb (fun y => Z.eqb (Z.gcd x y) 1) l' && pairwise_coprime l'
   end.
-Definition model_trivially_empty (bs : list Qc) : bool :=
+Definition old_model_trivially_empty (bs : list Qc) : bool :=
   let ns := filter (fun n => negb (Z.eqb n 1)) (map (fun b => Qnum (this b)) bs) in
   let ds := filter (fun n => negb (Z.eqb n 1)) (map (fun b => Zpos (Qden (this b))) bs) in
   forallb (fun n => Z.ltb 1 (Z.abs n)) ns && pairwise_coprime (ns ++ ds).
+
+Definition old_model_compute_basis (bs : list Qc) (m : nat) (facts : list (bool * list Z)) : list (list Z) :=
+  if old_model_trivially_empty bs then [] else old_model_basis_rational m facts.
+
+
+(* ================================================================================== *)
+(* The repaired rule: ExponentLattice._integer_kernel and the base-1 test (current /repo). *)
+
+Definition zrow := list Z.
+Definition zc (c : nat) (r : zrow) : Z := nth c r 0%Z.
+Definition zsubrow (q : Z) (row p : zrow) : zrow := map (fun xy => (fst xy - q * snd xy)%Z) (combine row p).
+
+(* indices r >= top whose entry in column c is non-zero *)
+Definition nonzero_rows (c top : nat) (a : list zrow) : list nat :=
+  filter (fun r => Nat.leb top r && negb (Z.eqb (zc c (nth r a [])) 0)) (seq 0 (length a)).
+
+(* one pass of the inner while loop: pivot = FIRST row of minimal |entry| (Python min), every
+   other non-zero row r gets  a[r] -= (a[r][c] // a[p][c]) * a[p]  (floor division) *)
+Definition sweep (c top : nat) (a : list zrow) : option (list zrow) :=
+  match nonzero_rows c top a with
+  | [] => None
+  | [_] => None
+  | i0 :: rest =>
+      let p := fold_left (fun best r => if Z.ltb (Z.abs (zc c (nth r a []))) (Z.abs (zc c (nth best a []))) then r else best) rest i0 in
+      let ap := nth p a [] in
+      Some (map (fun ir =>
+                   let i := fst ir in let row := snd ir in
+                   if Nat.leb top i && negb (Z.eqb (zc c row) 0) && negb (Nat.eqb i p)
+                   then zsubrow (Z.div (zc c row) (zc c ap)) row ap else row)
+                (combine (seq 0 (length a)) a))
+  end.
+Fixpoint reduce_col (fuel c top : nat) (a : list zrow) : list zrow :=
+  match fuel with
+  | O => a
+  | S f => match sweep c top a with None => a | Some a' => reduce_col f c top a' end
+  end.
+Definition swap_rows (i j : nat) (a : list zrow) : list zrow :=
+  map (fun ir => if Nat.eqb (fst ir) i then nth j a [] else if Nat.eqb (fst ir) j then nth i a [] else snd ir)
+      (combine (seq 0 (length a)) a).
+Definition col_fuel (c : nat) (a : list zrow) : nat :=
+  S (Z.to_nat (fold_left (fun acc r => (acc + Z.abs (zc c r))%Z) a 0%Z)).
+Definition kernel_step (st : list zrow * nat) (c : nat) : list zrow * nat :=
+  let '(a, top) := st in
+  let a := reduce_col (col_fuel c a) c top a in
+  match nonzero_rows c top a with
+  | [] => (a, top)
+  | i0 :: _ => (swap_rows top i0 a, S top)
+  end.
+(* a0: one row per unknown, (column of M for that unknown) ++ (unit vector); m = number of rows of M *)
+Definition integer_kernel (m : nat) (a0 : list zrow) : list zrow :=
+  let '(a, top) := fold_left kernel_step (seq 0 m) (a0, O) in
+  map (skipn m) (skipn top a).
+
+Definition unit_row (n i : nat) : zrow := map (fun j => if Nat.eqb i j then 1%Z else 0%Z) (seq 0 n).
+
+Definition model_basis_rational (m : nat) (facts : list (bool * list Z)) : list (list Z) :=
+  let k := length facts in
+  let has_neg := existsb fst facts in
+  let n := if has_neg then S k else k in
+  let mrows := if has_neg then S m else m in
+  let base_rows :=
+      map (fun ifc => let i := fst ifc in let f := snd ifc in
+                      map (fun j => nth j (snd f) 0%Z) (seq 0 m) ++ (if has_neg then [tz (fst f)] else []) ++ unit_row n i)
+          (combine (seq 0 k) facts) in
+  let a0 := if has_neg then base_rows ++ [repeat 0%Z m ++ [2%Z] ++ unit_row n k] else base_rows in
+  let ker := integer_kernel mrows a0 in
+  if has_neg then map (fun v => removelast v) ker else ker.
+
+Definition model_trivially_empty (bs : list Qc) : bool :=
+  negb (existsb (fun b => Qc_eqb b 1) bs) && old_model_trivially_empty bs.
 
 Definition model_compute_basis (bs : list Qc) (m : nat) (facts : list (bool * list Z)) : list (list Z) :=
   if model_trivially_empty bs then [] else model_basis_rational m facts.
 
 (* ================================================================================== *)
-(* The model (hence, through the correspondence check, the code) does not compute a basis. *)
+(* The OLD rule does not compute a basis (kept as statements about the old rule only). *)
 
 Definition q_of (n : Z) (d : positive) : Qc := Q2Qc (n # d).
 
@@ -98,14 +175,14 @@ Proof. intros H E. subst. rewrite Qc_eqb_refl in H. discriminate. Qed.
 
 (* [4; 8]: the Q-nullspace vector (-3/2, 1) is truncated to (-1, 1), and 4^-1 * 8 = 2.
    [4; 1/2]: (1/2, 1) is truncated to (0, 1), and (1/2)^1 <> 1. *)
-Theorem truncation_refuted :
+Theorem truncation_old_rule_refuted :
   (exists bs ps facts row,
       bs = [q_of 4 1; q_of 8 1] /\ check_factorisation ps facts bs = true /\
-      model_compute_basis bs (length ps) facts = [row] /\ row = [(-1)%Z; 1%Z] /\ ~ qrelation bs row)
+      old_model_compute_basis bs (length ps) facts = [row] /\ row = [(-1)%Z; 1%Z] /\ ~ qrelation bs row)
   /\
   (exists bs ps facts row,
       bs = [q_of 4 1; q_of 1 2] /\ check_factorisation ps facts bs = true /\
-      model_compute_basis bs (length ps) facts = [row] /\ row = [0%Z; 1%Z] /\ ~ qrelation bs row).
+      old_model_compute_basis bs (length ps) facts = [row] /\ row = [0%Z; 1%Z] /\ ~ qrelation bs row).
 Proof.
   split.
   - exists [q_of 4 1; q_of 8 1], [2%Z], [(false, [2%Z]); (false, [3%Z])], [(-1)%Z; 1%Z].
@@ -118,10 +195,10 @@ Qed.
 
 (* [3; 1]: the shortcut filters the numerator 1 away BEFORE testing |numerator| > 1, declares
    the lattice trivial, but (0, 1) is a non-zero relation (3^0 * 1^1 = 1). *)
-Theorem trivially_empty_refuted :
+Theorem trivially_empty_old_rule_refuted :
   exists bs ps facts e,
     bs = [q_of 3 1; q_of 1 1] /\ check_factorisation ps facts bs = true /\
-    model_compute_basis bs (length ps) facts = [] /\
+    old_model_compute_basis bs (length ps) facts = [] /\
     length e = length bs /\ qrelation bs e /\ e <> zeros (R := Z_cring) (length bs).
 Proof.
   exists [q_of 3 1; q_of 1 1], [3%Z], [(false, [1%Z]); (false, [0%Z])], [0%Z; 1%Z].
